@@ -39,6 +39,16 @@ def run(ctx):
     tab = tables.str_table(prog, lx)
     ctx.need(len(tab) >= 27, "keyword table in the lexer (found %d string tests)" % len(tab))
     flag_blocks = [b for b, t, c in lx.calls() if c == FLAG]
+    if not flag_blocks:
+        # the test stands in front of the call of the mapping, in the one lexer routine that calls it: judged as one piece of code
+        outer = [g for n, g in sorted(prog.fns.items()) if n.startswith("lace::lexer::") and g.bkind == "fn"
+                 and any(c == LEX for b, t, c in g.calls()) and any(c == FLAG for b, t, c in g.calls())]
+        if len(outer) == 1:
+            lx = kit.inlined_view(prog, outer[0], {LEX})
+            ctx.analysed_fns.add(outer[0].name)
+            ctx._c18_gate_host = outer[0].name          # R4: this routine is the lexer gate (R1 has judged its use of the flag)
+            tab = tables.str_table(prog, lx)
+            flag_blocks = [b for b, t, c in lx.calls() if c == FLAG]
     ctx.need(flag_blocks, "flag test in the lexer's keyword routine")
     mapping = {}
     guards_true = {}
@@ -76,13 +86,18 @@ def run(ctx):
     # lower-cased identifier lets `PUSH` through ungated
     def subject(gb):
         t = lx.term(gb)
-        es = [lx.expr(a, 12) for a in t["args"]]
+        es = [lx.expr(a, 30) for a in t["args"]]
         es = [e for e in es if not any(x[0] in ("str", "uneval") for x in expr_walk(e))]      # drop the literal / the constant table
         if len(es) != 1:
             return None
         e = es[0]
-        while e[0] in ("ref", "deref"):          # `x == "lit"` passes &x, `TABLE.contains(&x)` passes &&x: the same string
-            e = e[1]
+        for _ in range(8):
+            if e[0] in ("ref", "deref"):          # `x == "lit"` passes &x, `TABLE.contains(&x)` passes &&x: the same string
+                e = e[1]
+            elif e[0] == "call" and len(e[2]) == 1 and re.search(r"String::as_str$|Deref>::deref$|AsRef<str>>::as_ref$|Borrow<str>>::borrow$", str(e[1])):
+                e = e[2][0]                        # a String seen as &str, by whichever conversion: the same text
+            else:
+                break
         return e
     subj = {}
     for lit, val, tb, gb in tab:
@@ -235,8 +250,8 @@ def run(ctx):
     callers = ctx.cg.callers(FLAG)
     for c in callers:
         ctx.instance(1)
-        ok = c in READERS
-        ctx.oblig(ok, {"reader": short(c), "role": READERS.get(c)}, "reviewed closed set")
+        ok = c in READERS or c == getattr(ctx, "_c18_gate_host", None)
+        ctx.oblig(ok, {"reader": short(c), "role": READERS.get(c, "lexer gate (in front of the keyword mapping)")}, "reviewed closed set")
         if not ok:
             ctx.violation("reader|%s" % short(c), prog.fns[c].file_line() if c in prog.fns else "-",
                           "`%s` reads the stack-feature flag; outside the lexer gate, the 0xD handler and the step-out arm nothing may "
